@@ -18,6 +18,9 @@ def find_interval(t, k, x, side):
         mu += 1
     while t[mu] == t[mu + 1] and mu > lo and side == 'left':
         mu -= 1
+    # a repeated lowest breakpoint: the empty leading intervals hold no point, the lower end belongs to the first non-empty one
+    while t[mu] == t[mu + 1] and mu < hi:
+        mu += 1
     return mu
 
 
